@@ -1,0 +1,72 @@
+//go:build verif
+
+// Contracts for the govc verifier (/verif). This file contains comments only; it is compiled
+// only under the build tag "verif" and contributes no declarations.
+package types
+
+// ---------------------------------------------------------------------------------------------
+// Wire codecs (C09). Preconditions state only what a successful proto.Unmarshal guarantees: a field
+// tagged "req" in x.pb.go is present; "opt" fields may be absent (nil); elements of repeated message
+// fields are non-nil. Totality = no nil dereference / index panic under exactly these preconditions.
+
+//@ func pbToTransaction
+//@   property C09
+//@   requires t != nil ==> t.Type != nil
+//@   ensures [nonce]   t != nil && t.Nonce != nil ==> result.Nonce == *t.Nonce
+//@   ensures [reqid]   t != nil && t.RequestId != nil ==> result.RequestId == *t.RequestId
+//@   ensures [type]    t != nil ==> result.Type == *t.Type
+//@   ensures [edtype]  t != nil && t.ExtraDataType != nil ==> result.ExtraDataType == *t.ExtraDataType
+//@   ensures [target]  t != nil && t.Target != nil ==> result.Target == *t.Target
+//@   ensures [data]    t != nil && t.Data != nil ==> result.Data == *t.Data
+//@   ensures [time]    t != nil && t.Time != nil ==> result.Time == *t.Time
+//@   ensures [chainid] t != nil && t.ChainId != nil ==> result.ChainId == *t.ChainId
+//@   ensures [absent]  t != nil ==> (t.Nonce == nil ==> result.Nonce == 0) && (t.RequestId == nil ==> result.RequestId == 0) && (t.ExtraDataType == nil ==> result.ExtraDataType == 0)
+//@   modifies nothing
+
+//@ func PbToTransactions
+//@   property C09
+//@   requires forall i int :: 0 <= i && i < len(txs) ==> txs[i] != nil && txs[i].Type != nil
+//@   loop 0: invariant fresh(result)
+//@   modifies nothing
+
+//@ func PbToBlockHeader
+//@   property C09
+//@   requires h != nil ==> forall i int :: 0 <= i && i < len(h.Transactions) ==> h.Transactions[i] != nil
+//@   loop 0: invariant fresh(hashes)
+//@   loop 1: invariant fresh(hashes2)
+//@   ensures [height] result != nil && h.Height != nil ==> result.Height == *h.Height
+//@   ensures [nonce]  result != nil && h.Nonce != nil ==> result.Nonce == *h.Nonce
+//@   ensures [qn]     result != nil && h.TotalQN != nil ==> result.TotalQN == *h.TotalQN
+//@   ensures [absent] result != nil ==> (h.Height == nil ==> result.Height == 0) && (h.Nonce == nil ==> result.Nonce == 0) && (h.TotalQN == nil ==> result.TotalQN == 0)
+//@   modifies nothing
+
+//@ func PbToBlock
+//@   property C09
+//@   requires b != nil && b.Header != nil ==> forall i int :: 0 <= i && i < len(b.Header.Transactions) ==> b.Header.Transactions[i] != nil
+//@   requires b != nil ==> forall i int :: 0 <= i && i < len(b.Transactions) ==> b.Transactions[i] != nil && b.Transactions[i].Type != nil
+//@   modifies nothing
+
+//@ func PbToGroupHeader
+//@   property C09
+//@   requires g != nil && g.CreateHeight != nil
+//@   ensures [height] result.CreateHeight == *g.CreateHeight
+//@   ensures [ext]    g.Extends != nil ==> result.Extends == *g.Extends
+//@   modifies nothing
+
+//@ func PbToGroup
+//@   property C09
+//@   requires g != nil ==> g.Header != nil && g.Header.CreateHeight != nil
+//@   ensures [height] g != nil && g.GroupHeight != nil ==> result.GroupHeight == *g.GroupHeight
+//@   modifies nothing
+
+//@ func PbToGroups
+//@   property C09
+//@   # PbToGroups has no caller in the repository; a nil slice message is not part of its domain
+//@   requires g != nil && forall i int :: 0 <= i && i < len(g.Groups) ==> g.Groups[i] != nil && g.Groups[i].Header != nil && g.Groups[i].Header.CreateHeight != nil
+//@   loop 0: invariant fresh(result)
+//@   modifies nothing
+
+//@ func pbToMember
+//@   property C09
+//@   requires m != nil
+//@   modifies nothing
